@@ -120,7 +120,7 @@ var c04Rests = map[string][]string{
 	"javascript:": {"alert(1)", "alert(1)//", "void(0)", ""},
 	"vbscript:":   {"msgbox(1)", "x"},
 	"file:":       {"///etc/passwd", "///c:/boot.ini", "x"},
-	"data:":       {"text/html,<script>alert(1)</script>", "text/html;base64,PHNjcmlwdD4=", ",x", "image/svg+xml,<svg/onload=alert(1)>", "image/png;base64,iVBOR", "IMAGE/PNG;x", "image/x-icon;base64,AA", "application/javascript,x", "image/svg+xml;base64,PHN2Zz4="},
+	"data:":       {"text/html,<script>alert(1)</script>", "text/html;base64,PHNjcmlwdD4=", ",x", "image/svg+xml,<svg/onload=alert(1)>", "image/png;base64,iVBOR", "IMAGE/PNG;x", "image/x-icon;base64,AA", "application/javascript,x", "image/svg+xml;base64,PHN2Zz4=", "\u0130mage/png;base64,iVBOR", "image/g\u0130f;base64,R0lG", "IMAGE/\u0130PEG;x", "\u0131mage/png;x", "image/png\uff1bbase64,x", "image/webp", "image/png"},
 }
 
 func c04Spell(r *rand.Rand) c04Spelling {
@@ -246,7 +246,33 @@ func c04Spell(r *rand.Rand) c04Spelling {
 		}
 	}
 	rests := c04Rests[scheme]
-	b.WriteString(rests[r.Intn(len(rests))])
+	rest := rests[r.Intn(len(rests))]
+	if r.Intn(6) == 0 {
+		// letters of the rest written as characters that Unicode case mapping turns into ASCII letters (U+0130 -> i, U+212A -> k,
+		// U+017F -> s under upper-casing/folding): a browser compares bytes, so "data:\u0130mage/png;" is not an image type
+		var rb strings.Builder
+		done := false
+		for _, ch := range rest {
+			switch {
+			case (ch == 'i' || ch == 'I') && r.Intn(2) == 0:
+				rb.WriteString("\u0130")
+				done = true
+			case (ch == 'k' || ch == 'K') && r.Intn(2) == 0:
+				rb.WriteString("\u212a")
+				done = true
+			case (ch == 's' || ch == 'S') && r.Intn(3) == 0:
+				rb.WriteString("\u017f")
+				done = true
+			default:
+				rb.WriteRune(ch)
+			}
+		}
+		if done {
+			rest = rb.String()
+			dev["unicode-case-lookalike"] = true
+		}
+	}
+	b.WriteString(rest)
 	var ds []string
 	for d := range dev {
 		ds = append(ds, d)
